@@ -41,6 +41,7 @@ type Engine struct {
 	sites    []site
 	base     map[string]string // prog|cfg -> hash of baseline
 	skipped  []string
+	history  []string // "progIndex|target|opt" of every compilation made by this process, in order
 	seenSite map[int]bool
 	multi    map[int]bool
 }
@@ -182,7 +183,41 @@ func (s *sample) LogLines() []string { return s.Log }
 
 func hash(b []byte) string { h := sha256.Sum256(b); return hex.EncodeToString(h[:12]) }
 
+// ReplayPrelude re-executes the compilations a worker process had made before
+// the failing run (canonical map order), so that a fresh process is in the same
+// state when the tape is replayed.
+func (e *Engine) ReplayPrelude(extra any) {
+	list, _ := extra.([]any)
+	for _, x := range list {
+		s, _ := x.(string)
+		var pi int
+		var target string
+		var opt bool
+		if n, _ := fmt.Sscanf(strings.ReplaceAll(s, "|", " "), "%d %q %t", &pi, &target, &opt); n == 3 && pi < len(e.corpus) {
+			w, m, err := e.compile(e.corpus[pi], target, opt, nil)
+			// the first compilation of a (program, configuration) in a process is its baseline
+			key := e.corpus[pi].name + "|" + fmt.Sprintf("target=%q optimize=%v", target, opt)
+			if _, ok := e.base[key]; !ok {
+				if err != nil {
+					e.base[key] = "error"
+				} else {
+					e.base[key] = w + "/" + m
+				}
+			}
+		}
+	}
+	e.history = nil
+}
+
 func (e *Engine) compile(p prog, target string, opt bool, sch *schedule) (string, string, error) {
+	for i := range e.corpus {
+		if e.corpus[i].name == p.name {
+			if len(e.history) < 400 {
+				e.history = append(e.history, fmt.Sprintf("%d|%q|%t", i, target, opt))
+			}
+			break
+		}
+	}
 	verifsim.ResetSerials()
 	if sch == nil {
 		verifsim.MapPerm = nil
@@ -248,12 +283,34 @@ func (e *Engine) Run(t *tape.Tape, keep bool) *sim.Result {
 	res.Sample = sm
 	log.Add(fmt.Sprintf("prog=%s %s kind=%d", p.name, cfg, kind))
 	key := p.name + "|" + cfg
+	histBefore := append([]string(nil), e.history...)
 	fail := func(class, sig, detail string) *sim.Result {
-		log.Add("VIOLATION " + class + " " + detail)
+		log.Add("VIOLATION " + class + " " + sig) // (hashes stay out of the digest: they depend on the process history)
 		res.Violation = &sim.Violation{Class: class, Signature: class + ":" + sig, Detail: detail}
+		if class == "history_dependent" {
+			res.Prelude = histBefore
+		}
 		res.Digest = log.Digest()
 		sm.Log = log.Lines
 		return res
+	}
+	// history probe (tape-drawn, so it replays in a fresh process): compile P, then
+	// another program Q, then P again, all with the canonical map order: state left
+	// behind by Q (or by the first P) must not reach the second P's output
+	probe := t.Draw(3) == 2
+	qi := t.Draw(len(e.corpus))
+	if probe {
+		q := e.corpus[qi]
+		w1, m1, err1 := e.compile(p, target, opt, nil)
+		if err1 == nil {
+			e.compile(q, target, opt, nil)
+			w2, m2, err2 := e.compile(p, target, opt, nil)
+			res.Steps += 3
+			res.Probes["history_probes"]++
+			if err2 != nil || w1 != w2 || m1 != m2 {
+				return fail("history_dependent", p.name+"~"+q.name, fmt.Sprintf("%s %s compiled, then %s, then %s again (same map order throughout): first wat/wasm %s/%s, second %s/%s (err=%v) - state left over from an earlier compilation reaches the output", p.name, cfg, q.name, p.name, w1, m1, w2, m2, err2))
+			}
+		}
 	}
 	b0, ok := e.base[key]
 	if !ok {
@@ -309,6 +366,11 @@ func (e *Engine) Run(t *tape.Tape, keep bool) *sim.Result {
 		return fail("order_dependent", p.name, fmt.Sprintf("%s %s compiles with the canonical map order but fails under a permuted one: %v; perturbed range sites: %s", p.name, cfg, err, strings.Join(names, "; ")))
 	}
 	if w+"/"+m != b0 {
+		// order or history? compile once more with the canonical order, now
+		if w3, m3, err3 := e.compile(p, target, opt, nil); err3 == nil && w3+"/"+m3 != b0 {
+			res.Steps++
+			return fail("history_dependent", p.name, fmt.Sprintf("%s %s: the first compilation in this process gave wat/wasm %s; the same compilation with the same (canonical) map order gives %s/%s after other programs were compiled in between - state left over from earlier compilations reaches the output", p.name, cfg, b0, w3, m3))
+		}
 		sig := p.name
 		if len(names) <= 3 {
 			sig = strings.Join(names, "+")
